@@ -7,6 +7,7 @@ import EaselModel.Stats.MinTrace
 import EaselModel.Stats.HistExpect
 import EaselModel.Stats.FitGev
 import EaselModel.Stats.FitSxpBinned
+import EaselModel.Stats.Format
 /-! Line-protocol driver for the C11 model (histogram + maximum-likelihood fits) over `Float`. -/
 open EaselModel EaselModel.Proto EaselModel.Stats
 
@@ -248,9 +249,10 @@ def stepH (s : S) (ws : List String) (h : Hist Float) : S × String :=
     | .fault => (s, "fault")
     | .val rows =>
       let sum := rows.foldl (fun acc r => acc + r.2) 0
+      let txt := match h.plotText with | some t => hex64 (fnvText t) | none => "-"
       match s.e.expect with
-      | none => (s, s!"ok sets=1 rows1={rows.length + 1} rows2=0 sum={sum}")
-      | some ex => (s, s!"ok sets=2 rows1={rows.length + 1} rows2={(plotExpected ex).length} sum={sum}")
+      | none => (s, s!"ok sets=1 rows1={rows.length + 1} rows2=0 sum={sum} txt={txt}")
+      | some ex => (s, s!"ok sets=2 rows1={rows.length + 1} rows2={(plotExpected ex).length} sum={sum} txt={txt}")
   | "hplotsurv" :: _ =>
     match h.plotSurvival with
     | .fault => (s, "fault")
